@@ -267,7 +267,7 @@ impl Workload for Renames {
 pub fn run(ctx: &Ctx) -> i32 {
     let mut acc = Acc::new(ctx);
     let wl = Renames {
-        n: if ctx.quick() { 192 } else { 1000 },
+        n: if ctx.quick() { 400 } else { 10_000 },
     };
     acc.pool(&wl, "c18", true);
     for k in ["renamed:use-of-declaration", "renamed:declaration-name"] {
